@@ -151,6 +151,7 @@ var c10Stmts = []string{
 	`{ x := Q.New(); pp := &x; (*pp).F = 1; (**pp).F = 2; **pp = Q.T{} }`,
 	`{ new := func(int) int { return 0 }; _ = new(1); T := 1; _ = T; Helper := func() int { return 0 }; _ = Helper(); New := 2; _ = New }`,
 	`{ L: for { x := Q.New(); x.F = 1; if x.F > 0 { break L }; continue L }; goto E; E: }`,
+	`{ new := func() int { return 0 }; _ = new(); make := func(a, b int) *Q.T { return nil }; make(1, 2).F = 1; { new := func(a, b int) int { return a }; _ = new(1, 2) } }`,
 	`{ x := Q.New(); switch x.F = 1; x.F { case 1: x.F = 2; fallthrough; default: x.F++ }; if x.F = 3; x.F > 0 { x.F = 4 } else if x.M = 1; true { x.F = 5 } else { x.F = 6 } }`,
 }
 
